@@ -1,0 +1,77 @@
+//! Verification hooks, compiled only with `--cfg iroh_verif`.
+//!
+//! Every function here is inert unless a controller was installed with [`install`]: scheduling
+//! points return immediately, seams return the real value. The verification harness installs
+//! process-wide function pointers that dispatch to per-thread controllers.
+
+use std::{future::Future, pin::Pin, sync::OnceLock};
+
+/// Boxed future returned by the async gate.
+pub type GateFuture = Pin<Box<dyn Future<Output = ()> + Send + 'static>>;
+
+/// Process-wide controller callbacks.
+#[derive(Debug, Clone, Copy)]
+pub struct Hooks {
+    /// Synchronous scheduling point.
+    pub pause: fn(&'static str),
+    /// Asynchronous gate.
+    pub pause_async: fn(&'static str) -> Option<GateFuture>,
+    /// Observation log.
+    pub event: fn(&'static str, String),
+    /// Owned randomness: `Some(v)` replaces the real random value (`v < bound`).
+    pub choose_u64: fn(&'static str, u64) -> Option<u64>,
+    /// Owned wall clock (microseconds).
+    pub clock_micros: fn(&'static str, u64) -> u64,
+    /// Owned random bytes: may overwrite the real random bytes.
+    pub fill_bytes: fn(&'static str, &mut [u8]),
+}
+
+static HOOKS: OnceLock<Hooks> = OnceLock::new();
+
+/// Installs the controller callbacks (once per process).
+pub fn install(hooks: Hooks) {
+    let _ = HOOKS.set(hooks);
+}
+
+/// Synchronous scheduling point.
+pub fn pause(label: &'static str) {
+    if let Some(h) = HOOKS.get() {
+        (h.pause)(label)
+    }
+}
+
+/// Asynchronous gate: resolves when the controller releases it (immediately without controller).
+pub async fn pause_async(label: &'static str) {
+    if let Some(h) = HOOKS.get() {
+        if let Some(fut) = (h.pause_async)(label) {
+            fut.await
+        }
+    }
+}
+
+/// Appends to the controller's observation log.
+pub fn event(label: &'static str, data: impl FnOnce() -> String) {
+    if let Some(h) = HOOKS.get() {
+        (h.event)(label, data())
+    }
+}
+
+/// Owned randomness.
+pub fn choose_u64(label: &'static str, bound: u64) -> Option<u64> {
+    HOOKS.get().and_then(|h| (h.choose_u64)(label, bound))
+}
+
+/// Owned wall clock.
+pub fn clock_micros(label: &'static str, real: u64) -> u64 {
+    match HOOKS.get() {
+        Some(h) => (h.clock_micros)(label, real),
+        None => real,
+    }
+}
+
+/// Owned random bytes.
+pub fn fill_bytes(label: &'static str, bytes: &mut [u8]) {
+    if let Some(h) = HOOKS.get() {
+        (h.fill_bytes)(label, bytes)
+    }
+}
